@@ -220,8 +220,9 @@ class QGauss2(object):
 
         self.xgrid, self.ygrid = meshgrid(x, y)
 
-        wxgrid = ones((nx, ny)) * wx[newaxis, :]
-        wygrid = ones((nx, ny)) * wy[:, newaxis]
+        # meshgrid(x, y) has shape (ny, nx): rows run over y, columns over x
+        wxgrid = ones((ny, nx)) * wx[newaxis, :]
+        wygrid = ones((ny, nx)) * wy[:, newaxis]
 
         self.wgrid = wxgrid * wygrid
 
